@@ -175,7 +175,7 @@ def run(tier, seed, replay):
     traces.append(tp)
     # `next N` for N in the millions is N clock keys - far beyond what TLC can step; here the oracle is the library itself (N calls of
     # trigger_key_clock on a machine loaded with the same program), whose single step is what every other check validates
-    big_n = 7372800 + 1 + rng.randrange(5000) if tier == "quick" else 16777216 + 1 + rng.randrange(5000)
+    big_n = 20000000 + 1 + rng.randrange(5000) if tier == "quick" else 70000000 + 1 + rng.randrange(5000)
     afile = sorted(files)[0]
     recs4, _ = tc.run_script(["new"] + [tc.key_line(k) for k in tc.type_line("load " + afile) + tc.type_line("next %d" % big_n)], "c17-bignext", timeout=3000)
     btp, _ = vlib.run_scenario([{"op": "new"}, {"op": "load_asm", "src": files[afile]}, {"op": "clock_bulk", "n": big_n}], "c17-bignext")
@@ -185,6 +185,50 @@ def run(tier, seed, replay):
     if got is None or any(got[k] != want[k] for k in want):
         v.violation("tui:next:big", "`next %d` does not leave the machine where %d clock keys leave it: session %s, library %s"
                     % (big_n, big_n, {k: got[k] for k in want} if got else (recs4[-1].get("key_panic") if recs4 else None), want), {"n": big_n, "file": afile})
+    # voltages typed with many digits (beyond the three decimals Tui.tla specifies): the stored value is the correctly rounded f32 of the
+    # literal - expected bit pattern by exact rational arithmetic; literals sit at the f32 rounding boundaries (double rounding through f64 fails)
+    from fractions import Fraction
+    import struct
+
+    def f32_bits(fr):
+        lo, hi = 0, 0x7F7FFFFF
+        while lo < hi:
+            mid = (lo + hi + 1) // 2
+            if Fraction(struct.unpack(">f", struct.pack(">I", mid))[0]) <= fr:
+                lo = mid
+            else:
+                hi = mid - 1
+        a = Fraction(struct.unpack(">f", struct.pack(">I", lo))[0])
+        b = Fraction(struct.unpack(">f", struct.pack(">I", lo + 1))[0])
+        return lo if (fr - a < b - fr or (fr - a == b - fr and lo % 2 == 0)) else lo + 1
+
+    def dec(fr, digits=110):
+        n = int(fr * 10 ** digits)
+        s = str(n).rjust(digits + 1, "0")
+        return s[:-digits] + "." + s[-digits:]
+    ulp25 = Fraction(1, 2 ** 22)                      # spacing of f32 around 2.5
+    eps = Fraction(1, 10 ** 100)
+    lits = [Fraction(5, 2) + ulp25 / 2 + eps, Fraction(5, 2) + ulp25 / 2, Fraction(5, 2) + ulp25 / 2 - eps, Fraction(5, 2) + 3 * ulp25 / 2 + eps,
+            Fraction(1, 2 ** 150) + eps, Fraction(1, 2 ** 150), Fraction(1, 10) , Fraction(1, 3).limit_denominator(10 ** 30)]
+    vkeys = []
+    for fr in lits:
+        for name in ("TEMP", "I1", "I2"):
+            vkeys += tc.type_line("set %s = %s" % (name, dec(fr)))
+    recs5, _ = tc.run_script(["new"] + [tc.key_line(k) for k in vkeys], "c17-volts")
+    enters = [r for r in recs5 if r["op"] == "enter"]
+    vi = 0
+    for fr in lits:
+        for name, field in (("TEMP", "temp_bits"), ("I1", "ai1_bits"), ("I2", "ai2_bits")):
+            rec = enters[vi] if vi < len(enters) else None
+            vi += 1
+            want = f32_bits(Fraction(int(fr * 10 ** 110), 10 ** 110))
+            if rec is None or rec["key_panic"] is not None or rec["notif"] is not None or rec["m"][field] != want:
+                v.violation("tui:voltage", "`set %s = %s...` stores the f32 bit pattern %s, the correctly rounded value of the literal is %s"
+                            % (name, dec(fr)[:40], rec["m"][field] if rec else None, want), {"name": name, "literal": dec(fr)})
+                break
+        else:
+            continue
+        break
     results = vlib.validate_traces(traces, cfg="TraceTui")
     nev = 0
     for tp, tr in zip(traces, results):
